@@ -72,7 +72,7 @@ def main():
          "hooks": {"guard": "gecs_verif",
                    "enable": "RUSTFLAGS='--cfg gecs_verif' (a cfg flag, not a cargo feature); the checks pass it themselves",
                    "baseline_off_cmd": "cd /repo && cargo test --workspace --no-fail-fast --offline",
-                   "source_commits": ["1520591"], "add_only": True},
+                   "source_commits": ["1520591", "3fad01d"], "add_only": True},
          "engines": [
              {"name": "bin/check", "path": "bin/check", "serves_properties": sorted(CHECKS),
               "kind_free_text": "python driver: builds gecs from /repo's working tree with --cfg gecs_verif, builds the Rust harness with rustc, runs TLC (model checking, trace validation, behaviour export) and writes evidence"}],
